@@ -362,8 +362,28 @@ def unsign (cnt : Nat) (is16 : Bool) (p : Bytes) : Bytes :=
     if is16 then (if i < 2 * cnt ∧ i % 2 = 1 then nth p i ^^^ 0x80 else nth p i)
     else (if i < cnt then nth p i ^^^ 0x80 else nth p i)
 
-/-- VIDC logarithmic to linear by table on the first `cnt` bytes -/
-def vidc (cnt : Nat) (p : Bytes) : Bytes := build p.length fun i => if i < cnt then vidcByte (nth p i) else nth p i
+/-- The Acorn VIDC logarithmic amplitude law for the 7-bit magnitude `x >> 1` (values as published in
+    "Audio File Formats" 2.5 and reproduced by libxmp's `vdic_table`).  This copy is deliberately
+    independent of the regenerated `Gen.vdicTable`: the reference decoder must not follow an edit of the
+    C table. -/
+def vidcLaw : List Int := [
+  0, 0, 0, 0, 0, 0, 0, 0, 0, 0, 0, 0, 0, 0, 0, 0,
+  0, 0, 0, 0, 0, 0, 0, 0, 1, 1, 1, 1, 1, 1, 1, 1,
+  1, 1, 1, 1, 2, 2, 2, 2, 2, 2, 2, 2, 3, 3, 3, 3,
+  3, 3, 4, 4, 4, 4, 5, 5, 5, 5, 6, 6, 6, 6, 7, 7,
+  7, 8, 8, 9, 9, 10, 10, 11, 11, 12, 12, 13, 13, 14, 14, 15,
+  15, 16, 17, 18, 19, 20, 21, 22, 23, 24, 25, 26, 27, 28, 29, 30,
+  31, 33, 34, 36, 38, 40, 42, 44, 46, 48, 50, 52, 54, 56, 58, 60,
+  62, 65, 68, 72, 77, 80, 84, 91, 95, 98, 103, 109, 114, 120, 126, 127
+]
+
+/-- sign in bit 0, magnitude `vidcLaw[x / 2]`, as a two's-complement byte -/
+def vidcLin (x : UInt8) : UInt8 :=
+  let amp : Int := vidcLaw.getD (x.toNat / 2) 0
+  UInt8.ofNat ((if x.toNat % 2 = 1 then -amp else amp) % 256).toNat
+
+/-- VIDC logarithmic to linear on the first `cnt` bytes -/
+def vidc (cnt : Nat) (p : Bytes) : Bytes := build p.length fun i => if i < cnt then vidcLin (nth p i) else nth p i
 
 /-- planar → interleaved: `out[2i + c] = plane_c[i]` (samples of 1 or 2 bytes) -/
 def interleave (frames : Nat) (is16 : Bool) (p : Bytes) : Bytes :=
